@@ -5,7 +5,7 @@
 
 using namespace vh;
 
-static long gfdef_ncases(const std::string& tier) { return tier == "thorough" ? 2400 : 160; }
+static long gfdef_ncases(const std::string& tier) { return tier == "thorough" ? 20000 : 160; }
 
 static void gfdef_run(Ctx& c) {
     Rng& r = c.rng;
